@@ -143,6 +143,12 @@ func (p *StreamProp) states(ws *core.Workspace, tier string, seed int64, srcIdx 
 				}
 				continue
 			}
+			// two files without any item and without a final newline (the root body is then an
+			// empty range at the end of the file)
+			for _, k := range []int64{0, 3} {
+				i := int((seed%1000+int64(srcIdx)+k)%int64(len(itemlessTexts))+int64(len(itemlessTexts))) % len(itemlessTexts)
+				out = append(out, State{path, f, Mutation{Kind: "text", Text: itemlessTexts[i]}})
+			}
 			if pstep > 0 {
 				phase := int((seed + int64(srcIdx)*3) % int64(pstep))
 				for a := phase; a < len(src); a += pstep {
@@ -728,7 +734,7 @@ func init() {
 		prefixStep:   map[string]int{"quick": 3, "thorough": 1},
 		tokStep:      map[string]int{"quick": 3, "thorough": 1},
 	}
-	Register(&Composite{id: "C13", meta: c13stream.meta, Parts: []Prop{c13stream, c13cond{}}, Names: []string{"stream", "conditional-branches"}})
+	Register(&Composite{id: "C13", meta: c13stream.meta, Parts: []Prop{c13stream, c13cond{}, c12items{tokens: true}}, Names: []string{"stream", "conditional-branches", "object-items"}})
 	Register(&StreamProp{
 		id: "C02",
 		meta: Meta{
